@@ -103,7 +103,11 @@ if prop == 'C11':
                  '{ pkgs }: let s = { a = V; }; in let inherit (s) a; in { x = a; }', 'let a = V; in mk { x = a; }', 'let a = V; in assert c; { x = a; }', '{ pkgs }: let a = V; in { x = a; }',
                  # seventh round: a sibling attribute spelled like the let binding — in a non-recursive set the reference still means the let binding
                  'let a = V; in mk { x = a; a = 2; }', 'let a = V; in { x = a; a = 2; }', 'let a = 1; in rec { x = a; a = V; }', 'let a = V; in assert c; { x = a; a = 2; }',
-                 'let a = V; in mk (f { x = a; a = 2; })', 'let a = V; in { y = 0; x = a; /* c */ a = 2; }']
+                 'let a = V; in mk (f { x = a; a = 2; })', 'let a = V; in { y = 0; x = a; /* c */ a = 2; }',
+                 # eighth round: the edited set is reached through a name, and an inner let shadows what its bindings refer to — references are
+                 # resolved where the set is DEFINED, not where it is used
+                 'let a = V; cfg = { x = a; }; in let a = 2; in cfg', 'let a = V; cfg = { x = a; }; in let a = 2; in mk cfg',
+                 'let a = V; b = a; cfg = { x = b; }; in let a = 2; b = 3; in let c2 = cfg; in c2', 'let a = V; in let cfg = { x = a; }; in let a = 2; in cfg']
     # listed (F-46): a call/assert wrapper between the let and the set under a lambda head, or with an inherited name — overwritten instead of redirected
     for tpl in TEMPLATES:
         for old, new in [('5', '9'), ('"o"', '"n"'), ('[ 1 ]', '{ k = 1; }')]:
